@@ -1148,3 +1148,130 @@ def decision_paths(body, start, stop, max_paths=20000, value_switch=None):
                 continue
             stack.append((s, cons, trail + (s,)))
     return out
+
+
+# ------------------------------------------------------------------------------------------
+# describing operands and branch conditions
+
+
+def describe_place(body, place, depth=0):
+    local, projs = place
+    if depth > 12:
+        return "…"
+    fields = place_fields(place)
+    variants = place_variants(place)
+    base = None
+    if not (1 <= local <= body.argc):
+        d = body.single_def(local)
+        if d is not None:
+            if d[0] == "assign":
+                base = describe_rvalue(body, d[3], depth + 1)
+            elif d[0] == "call":
+                base = describe_call(body, d[2], depth + 1)
+    if base is None:
+        base = body.var_name(local) or ("arg%d" % local if 1 <= local <= body.argc else "_%d" % local)
+    s = base
+    for x in projs:
+        if isinstance(x, list) and x[0] == "f":
+            s += "." + x[2]
+        elif isinstance(x, list) and x[0] == "d":
+            s += "<" + x[1] + ">"
+    return s
+
+
+def describe_operand(body, op, depth=0):
+    if op[0] == "k":
+        v = const_value(op[1])
+        if v is not None:
+            return repr(v)
+        if "fn" in op[1]:
+            return "fn:" + op[1]["fn"].get("def", "?")
+        if "item" in op[1]:
+            return op[1]["item"].split("::")[-1]
+        return "const"
+    if op[0] in ("c", "m"):
+        return describe_place(body, op[1], depth)
+    return "?"
+
+
+def describe_call(body, c, depth=0):
+    nm = c.via_name or c.name or "?"
+    if depth > 10:
+        return nm + "(…)"
+    args = [describe_operand(body, a, depth + 1) for a in c.args]
+    if nm in ("deref", "deref_mut", "as_ref", "as_mut", "borrow", "borrow_mut", "into", "from") and len(args) == 1:
+        return args[0]
+    return "%s(%s)" % (nm, ", ".join(args))
+
+
+def describe_rvalue(body, rv, depth=0):
+    k = rv[0]
+    if depth > 12:
+        return "…"
+    if k == "use":
+        return describe_operand(body, rv[1], depth)
+    if k == "ref":
+        return describe_place(body, rv[2], depth)
+    if k == "rawptr":
+        return describe_place(body, rv[1], depth)
+    if k == "cast":
+        return describe_operand(body, rv[2], depth)
+    if k == "bin":
+        return "%s(%s, %s)" % (rv[1], describe_operand(body, rv[2], depth + 1), describe_operand(body, rv[3], depth + 1))
+    if k == "un":
+        return "%s(%s)" % (rv[1], describe_operand(body, rv[2], depth + 1))
+    if k == "disc":
+        return "disc(%s)" % describe_place(body, rv[1], depth + 1)
+    if k == "agg":
+        a = rv[1]
+        nm = (a.get("adt", "").split("::")[-1] + "::" + a.get("variant", "")) if "adt" in a else ("tuple" if a.get("tuple") else "agg")
+        return "%s(%s)" % (nm, ", ".join(describe_operand(body, o, depth + 1) for o in rv[2]))
+    return k
+
+
+def switch_desc(body, b):
+    """Canonical description of what a switch block tests."""
+    si = body.switch_info(b)
+    if si is None:
+        return None
+    if si["kind"] == "disc":
+        return "disc(%s)" % describe_place(body, si["place"])
+    if si["kind"] == "callresult":
+        return describe_call(body, si["call"])
+    if "rvalue" in si:
+        return describe_rvalue(body, si["rvalue"])
+    return describe_operand(body, si["operand"])
+
+
+def edge_label(body, a, s):
+    """Label of the edge a->s of switch block a: variant name(s) or value."""
+    si = body.switch_info(a)
+    if si is None:
+        return None
+    if si["kind"] == "disc":
+        ve = body.variant_edges(a)
+        names = sorted(n for n, t in ve.items() if t == s)
+        return "|".join(names) if names else "otherwise"
+    vals = [v for v, t in si["raw_arms"].items() if t == s]
+    if vals:
+        return "|".join(str(v) for v in sorted(vals))
+    if si["otherwise"] == s:
+        # for a bool switch with arm 0, otherwise means true
+        if set(si["raw_arms"].keys()) == {0}:
+            return "true"
+        return "otherwise"
+    return None
+
+
+def guards(body, b):
+    """[(description of the tested expression, edge label, switch block)] for every branch edge
+    the execution of block b is (transitively) control dependent on."""
+    out = []
+    for (a, s) in sorted(body.controlling_edges(b)):
+        if body.term(a)["k"] != "switch":
+            continue
+        lab = edge_label(body, a, s)
+        if lab == "0" and set(body.switch_info(a)["raw_arms"].keys()) == {0}:
+            lab = "false"
+        out.append((switch_desc(body, a), lab, a))
+    return out
